@@ -45,8 +45,8 @@ type Svc[T any] struct {
 	Origin Pt[T]
 }
 
-func (s *Svc[T]) Make(x, y int) *Pt[T]              { return &Pt[T]{X: x, Y: y, Tags: []string{"m"}} }
-func (s *Svc[T]) Move(p *Pt[T], d int) *Pt[T]       { return &Pt[T]{X: p.X + d, Y: p.Y + d, Tags: p.Tags} }
+func (s *Svc[T]) Make(x, y int) *Pt[T]        { return &Pt[T]{X: x, Y: y, Tags: []string{"m"}} }
+func (s *Svc[T]) Move(p *Pt[T], d int) *Pt[T] { return &Pt[T]{X: p.X + d, Y: p.Y + d, Tags: p.Tags} }
 func (s *Svc[T]) All(n int) []*Pt[T] {
 	out := make([]*Pt[T], n)
 	for i := range out {
@@ -83,7 +83,7 @@ func (s *Svc[T]) Scale(m map[string]float64, k float64) map[string]float64 {
 	}
 	return out
 }
-func (s *Svc[T]) Grid() [3][2]int        { return [3][2]int{{1, 2}, {3, 4}, {5, 6}} }
+func (s *Svc[T]) Grid() [3][2]int                            { return [3][2]int{{1, 2}, {3, 4}, {5, 6}} }
 func (s *Svc[T]) Nested(m map[string][]int) map[string][]int { return m }
 func (s *Svc[T]) Div(a, b int) (int, error) {
 	if b == 0 {
@@ -158,7 +158,7 @@ type program struct {
 
 var programs = map[string]program{
 	// the Go-type and type-converter registries through proxy method calls (first use of []*Pt[T], map[string]*Pt[T], ...)
-	"proxy_slices": {src: `ps := svc.All(4); svc.Total(ps) + svc.SumInts([1, 2, 3]) + len(svc.Grid())`, proxy: true},
+	"proxy_slices":  {src: `ps := svc.All(4); svc.Total(ps) + svc.SumInts([1, 2, 3]) + len(svc.Grid())`, proxy: true},
 	"proxy_structs": {src: `p := svc.Make(1, 2); q := svc.Move(p, 10); [q.X, q.Y, q.Sum(), p.Tags]`, proxy: true},
 	"proxy_maps": {src: `a := svc.Make(1, 1); b := svc.Make(2, 2); ks := svc.Index({"b": b, "a": a}); m := svc.Scale({"x": 1.5}, 2.0);
 	    n := svc.Nested({"k": [1, 2]}); [ks, m["x"], n["k"]]`, proxy: true},
